@@ -40,8 +40,28 @@ PROPS = {
                      "with allocation i = 1..k throwing; `exhaustive` refers to this finite space; (b) seeded histories with allocation faults "
                      "attached to operations at a seeded rate. evaluations = executions of (a) + runs of (b); distinct_nontrivial = distinct "
                      "(cell, failing allocation index) pairs whose fault actually fired plus distinct signatures of histories in which a fault fired"),
+    "C17": dict(engine="simC", level="exploration", quick={"plain": 60000, "asan": 8000}, thorough={"plain": 200, "asan": 140},
+                rule="one run = one generated format call (format string from a grammar of accepted specifiers + 0-4 typed arguments) executed against "
+                     "4-9 sink configurations (FILE* over fopencookie with seeded buffering mode/size, narrow and wide ostreams over a streambuf with seeded "
+                     "put-area capacity, ostream insertion, istream extraction with seeded refill size) and compared with ST::format on the same call; "
+                     "fault-free and faulted sink configurations are separate runs. evaluations = runs (calls); distinct = distinct (format-shape signature, "
+                     "argument type vector, sink kind, capacity class, faulted?) tuples; non-trivial = the output contains padding or a multi-unit "
+                     "character AND at least one flush/overflow/refill happened inside the call"),
 }
 DET_SAMPLE = {"quick": 240, "thorough": 3000}
+ENGINE_PARTS = {
+    "simA": (["all string_theory headers of /repo's working tree (compiled into the simulator)", "libstdc++ containers, std::function, exceptions and iostreams used on the library's behalf",
+              "glibc malloc/free underneath the heap seam"],
+             ["heap seam: operator new/delete replacement with ledger, fault plan, fill patterns, reuse policy (simrt/heap.cpp)",
+              "simulated time: step clock from -fsanitize-coverage=trace-pc (simrt/clock_fatal.cpp)",
+              "reference models (std::basic_string values, reference UTF encoders) and data-source table",
+              "fatal-event classification: --wrap=abort/fprintf, terminate handler, signal handlers, sanitizer callbacks"]),
+    "simC": (["all string_theory headers of /repo's working tree: ST::format, ST::format_latin_1, ST::printf, ST::writef, operator<< / operator>> for ST::string, the shared format driver and every format_type overload",
+              "glibc stdio buffering on the cookie FILE* (fopencookie, setvbuf)", "libstdc++ basic_ostream / basic_istream on the simulated streambufs"],
+             ["cookie sink recording what stdio hands to the 'device' and failing on request", "basic_streambuf<char|wchar_t|char16_t|char32_t> with seeded put-area capacity / refill size, failing on request",
+              "AnyArg: a user type plugged into the public format_type extension point that forwards to the real typed formatter (one template instantiation per arity)",
+              "reference UTF-8 -> UTF-16/32 and Latin-1 -> UTF-8 transcoders", "step clock watchdog, heap ledger"]),
+}
 
 # ----------------------------------------------------------------------------------------------- helpers
 def log(msg):
@@ -206,7 +226,7 @@ def confirm_and_report(prop, bins, seed, batches, known):
                 continue
             groups.setdefault((v.get("class"), site_kind(v.get("site"))), []).append((variant, v))
     for text, n in sorted(known_hits.items()):
-        log("KNOWN-FINDING: property=%s %s (seen %d times in this run)" % (prop, text, n))
+        log("KNOWN-FINDING: property=%s %s (seen %d times in this run)" % (prop, re.sub(r"^property=\S+\s+", "", text), n))
     infra = False
     reported = 0
     for (cls, sk), items in sorted(groups.items(), key=lambda kv: (str(kv[0][0]), str(kv[0][1])))[:4]:
@@ -261,7 +281,7 @@ def write_evidence(prop, ev):
     json.dump(ev, open(tmp, "w"), indent=1, sort_keys=False)
     os.replace(tmp, path)
 
-REAL = ["all string_theory headers of /repo's working tree (compiled into the simulator)", "libstdc++ containers, std::function, exceptions and iostreams used on the library's behalf",
+_UNUSED = ["all string_theory headers of /repo's working tree (compiled into the simulator)", "libstdc++ containers, std::function, exceptions and iostreams used on the library's behalf",
         "glibc malloc/free underneath the heap seam"]
 STUB = ["heap seam: operator new/delete replacement with ledger, fault plan, fill patterns, reuse policy (simrt/heap.cpp)",
         "simulated time: step clock from -fsanitize-coverage=trace-pc (simrt/clock_fatal.cpp)",
@@ -352,13 +372,14 @@ def check_engine_a(prop, tier, seed):
         "samples": dump_samples(os.path.join(bins["plain"], cfg["engine"]), prop, seed, [0, 1]),
         "seeds": {"verif_seed": seed, "plain_indices": "0..", "asan_indices": "10000000..", "run_seed": "mix(VERIF_SEED, property, index)"},
         "per_variant": per_variant,
-        "operations_executed": tot.get("ops", 0), "invariant_evaluations": tot.get("checks", 0),
+        "operations_executed": tot.get("ops", tot.get("pairs", 0)), "invariant_evaluations": tot.get("checks", tot.get("pairs", 0)),
         "simulated_time_steps": tot.get("steps", 0),
         "faults_fired": tot.get("faults", {}), "library_allocations_observed": tot.get("sut_allocs", 0),
         "exceptions_seen": tot.get("exceptions", {}),
         "rare_condition_probes": {k: v for k, v in tot.get("probes", {}).items()},
+        "engine_counters": {k: v for k, v in tot.items() if k in ("pairs", "calls", "rejected_by_format", "per_sink", "nontrivial_runs")},
         "determinism": {"indices_run_twice": det_n, "worker_counts": [4, NCPU], "mismatches": len(det_bad)},
-        "components_real": REAL, "components_simulated": STUB,
+        "components_real": ENGINE_PARTS[cfg["engine"]][0], "components_simulated": ENGINE_PARTS[cfg["engine"]][1],
         "known_findings_seen": n_known, "fixed_entries_in_known_findings_file": len(fixed),
     }
     if en is not None:
@@ -401,11 +422,7 @@ def main():
         tier = sys.argv[sys.argv.index("--tier") + 1]
     if prop not in PROPS:
         log("unknown property %s" % prop); return 2
-    eng = PROPS[prop]["engine"]
-    if eng == "simA":
-        return check_engine_a(prop, tier, seed)
-    import check_bc
-    return check_bc.check(prop, tier, seed)
+    return check_engine_a(prop, tier, seed)
 
 if __name__ == "__main__":
     sys.exit(main())
